@@ -405,3 +405,26 @@ def issues_depending_on(func, call, adders=('addIssue', 'addMathmlIssue')):
                     out.append(a)
                     break
     return out
+
+
+def indexed_child_accesses(f):
+    """Inside `for (i ...; i < owner->kindCount(); ...)`: calls `owner->kind...(args)` (other than kindCount).  Yields
+    (loop, call, index variable, uses_index?) - an accessor that does not use the loop's own index reads some other child."""
+    import re as _re
+    for loop in f.walk():
+        if loop.get('k') != 'For':
+            continue
+        m = _re.match(r'(\w+) < (.+)->(\w+)Count\(\)$', render(role(loop, 'cond')) or '')
+        if not m:
+            continue
+        ivar, owner, kind = m.group(1), m.group(2), m.group(3)
+        body = role(loop, 'body')
+        if body is None:
+            continue
+        for c in walk(body):
+            if c.get('k') == 'Call' and c.get('mc') and not c.get('opc') and render(receiver(c)) == owner and c.get('fn', '').lower().startswith(kind.lower()) and c.get('fn') != kind + 'Count':
+                args = c['c'][1:]
+                if not args:
+                    continue
+                uses = any(r.get('k') == 'Ref' and r.get('n') == ivar for a in args for r in walk(a))
+                yield loop, c, ivar, uses
